@@ -8,8 +8,11 @@
    The JWT library (github.com/golang-jwt/jwt v3.2.1: parsing, HMAC verification, exp/nbf/iat)
    is an ORACLE: every token string of a case comes with the facts the harness knows
    from how it built the token.  Executable definitions only; proofs in proof/JwtProofs.v.
-   The model is faithful to the code as it is, i.e. WITH the repair of finding C34/0 in
-   PostHandler (the upload's needle must equal the needle of the checked fid). *)
+   The model is faithful to the code as it is, i.e. WITH the repair in PostHandler (the
+   upload's needle must equal the needle of the checked fid) and WITH DeleteHandler ignoring
+   the errors of NewVolumeId / ParsePath (finding C34/0, trig_delete_unparsed).
+   needle.NewVolumeId, ParseNeedleIdCookie, Needle.ParsePath and ParseFileIdFromString are
+   modelled numerically (parse_vid, parse_nic, parse_path_st, claim_den). *)
 From Coq Require Import List NArith ZArith Bool String Ascii Arith.
 Import ListNotations.
 Local Open Scope string_scope.
@@ -104,6 +107,88 @@ Definition upload_fid (path : string) : option string :=
   let dot := last_index c_dot path in
   if (0 <? dot)%Z then go_slice path (comma + 1) dot else go_from path (comma + 1).
 
+(* ---- strconv.ParseUint(s, 10|16, bits): non-empty, digits only (no sign, no prefix, no
+     underscore: those need base 0), value below 2^bits ---- *)
+Definition digit_of (hex : bool) (c : ascii) : option N :=
+  let n := N_of_ascii c in
+  if ((48 <=? n) && (n <=? 57))%N then Some (n - 48)%N
+  else if (hex && (97 <=? n) && (n <=? 102))%N then Some (n - 87)%N
+  else if (hex && (65 <=? n) && (n <=? 70))%N then Some (n - 55)%N
+  else None.
+Fixpoint parse_digits (hex : bool) (s : string) (acc : N) : option N :=
+  match s with
+  | EmptyString => Some acc
+  | String c s' =>
+      match digit_of hex c with
+      | Some d => parse_digits hex s' (acc * (if hex then 16 else 10) + d)%N
+      | None => None
+      end
+  end.
+Definition parse_uint (hex : bool) (bits : N) (s : string) : option N :=
+  if sempty s then None
+  else match parse_digits hex s 0 with
+       | Some v => if (v <? 2 ^ bits)%N then Some v else None
+       | None => None
+       end.
+
+(* needle.NewVolumeId(vid) = strconv.ParseUint(vid, 10, 32) *)
+Definition parse_vid (vid : string) : option N := parse_uint false 32 vid.
+
+(* needle.ParseNeedleIdCookie: the last CookieSize*2 = 8 characters are the cookie (hex, 32 bit), what
+   is before them the needle id (hex, 64 bit); at most (NeedleIdSize+CookieSize)*2 = 24 characters *)
+Definition parse_nic (s : string) : option (N * N) :=
+  let len := String.length s in
+  if Nat.leb len 8 then None
+  else if Nat.ltb 24 len then None
+  else match parse_uint true 64 (substring 0 (len - 8) s), parse_uint true 32 (substring (len - 8) 8 s) with
+       | Some id, Some ck => Some (id, ck)
+       | _, _ => None
+       end.
+
+(* fid[0:deltaIndex], fid[deltaIndex+1:] when deltaIndex = LastIndex(fid, "_") > 0 *)
+Definition split_delta (fid : string) : string * string :=
+  match last_index_nat c_us fid with
+  | Some (S i) => (substring 0 (S i) fid, substring (S (S i)) (String.length fid - S (S i)) fid)
+  | _ => (fid, "")
+  end.
+
+(* Needle.ParsePath(fid) on a fresh Needle: ((n.Id, n.Cookie) as the call leaves them, err == nil).
+   The delta is ADDED to the id (uint64 wrap); an unparsable delta leaves id and cookie set *)
+Definition parse_path_st (fid : string) : (N * N) * bool :=
+  if Nat.leb (String.length fid) 8 then ((0, 0)%N, false)
+  else
+    let (base, delta) := split_delta fid in
+    match parse_nic base with
+    | None => ((0, 0)%N, false)
+    | Some (id, ck) =>
+        if sempty delta then ((id, ck), true)
+        else match parse_uint false 64 delta with
+             | Some d => ((((id + d) mod 2 ^ 64)%N, ck), true)
+             | None => ((id, ck), false)
+             end
+    end.
+Definition parse_path (fid : string) : option (N * N) :=
+  let (st, ok) := parse_path_st fid in if ok then Some st else None.
+
+(* needle.ParseFileIdFromString(claim): split at the FIRST comma (index > 0), NewVolumeId,
+   ParseNeedleIdCookie: the (volume, key, cookie) a claim text denotes *)
+Fixpoint index_nat (c : ascii) (s : string) : option nat :=
+  match s with
+  | EmptyString => None
+  | String a s' => if Ascii.eqb a c then Some O
+                   else match index_nat c s' with Some i => Some (S i) | None => None end
+  end.
+Definition claim_den (claim : string) : option (N * N * N) :=
+  match index_nat c_comma claim with
+  | Some (S i) =>
+      match parse_vid (substring 0 (S i) claim),
+            parse_nic (substring (S (S i)) (String.length claim - S (S i)) claim) with
+      | Some vol, Some (id, ck) => Some (vol, id, ck)
+      | _, _ => None
+      end
+  | _ => None
+  end.
+
 (* ---- token facts (oracle) ---- *)
 Inductive alg :=
 | AlgHMAC       (* HS256 / HS384 / HS512: jwt.SigningMethodHMAC *)
@@ -119,9 +204,12 @@ Record token := {
   t_nbf_ok : bool;         (* nbf *)
   t_iat_ok : bool;         (* iat *)
   t_fid : string;          (* claim "fid" *)
-  t_names_target : bool    (* ORACLE used by the property only: the claim denotes the volume, key and
-                              cookie of the file the request operates on (sub-file suffix ignored),
-                              compared as numbers *)
+  t_den : option (N * N * N);  (* needle.ParseFileIdFromString(claim) by the REAL parser: volume, key, cookie
+                              (check: equals claim_den (t_fid)); used by the property oracle *)
+  t_names_target : bool    (* ORACLE used by the property only, from the real parsers: the claim denotes the
+                              volume, key and cookie of the needle the store operation addresses (for an
+                              upload: the needle CreateNeedleFromRequest builds); key' = key, or
+                              key <= key' when the addressed file id carries a _suffix *)
 }.
 
 Definition is_hmac (a : alg) : bool := match a with AlgHMAC => true | _ => false end.
@@ -147,11 +235,6 @@ Record request := {
   rq_query_jwt : string;   (* r.URL.Query().Get("jwt") *)
   rq_auth : string;        (* Authorization header *)
   rq_path : string;        (* r.URL.Path *)
-  rq_vid_ok : bool;        (* ORACLE: needle.NewVolumeId(vid) succeeds, vid from parseURLPath *)
-  rq_fid_ok : bool;        (* ORACLE: n.ParsePath(fid) succeeds, fid from parseURLPath *)
-  rq_upfid_ok : bool;      (* ORACLE: n.ParsePath(upload_fid path) succeeds *)
-  rq_same_needle : bool;   (* ORACLE: ParsePath(fid) succeeds and gives the same needle id and cookie
-                              as ParsePath(upload_fid path) — the repaired PostHandler's comparison *)
   rq_wl_pass : bool        (* the remote host is in the white list *)
 }.
 
@@ -203,13 +286,17 @@ Definition check_jwt (tab : toktab) (cfg : config) (is_write : bool) (rq : reque
          end.
 
 (* ---- the handlers up to the first access to the store ---- *)
+Definition addr := (N * N * N)%type.     (* volume, needle id, cookie *)
+
 Inductive hresult :=
 | Unauthorized     (* 401 written, handler returns *)
 | BadRequest       (* 400 written, handler returns *)
 | NoRoute          (* the method is not served on this port: nothing is written *)
 | Panicked         (* a slice expression panics; net/http aborts the request *)
-| Proceed (vid fid : string).   (* the store is consulted for volume NewVolumeId(vid) and the needle
-                                   that ParsePath(fid) denotes *)
+| Proceed (vid fid : string) (a : addr).
+                   (* the store is consulted: vid, fid are parseURLPath's reading of the path (the
+                      texts the token was checked against), a is the volume / needle id / cookie the
+                      store operation is called with *)
 
 Definition is_write_method (m : meth) : bool :=
   match m with POST | PUT | DELETE => true | _ => false end.
@@ -224,37 +311,56 @@ Definition get_or_head (tab : toktab) (cfg : config) (rq : request) : hresult :=
   | None => Panicked
   | Some (vid, fid) =>
       if negb (check_jwt tab cfg false rq vid fid) then Unauthorized
-      else if negb (rq_vid_ok rq) then BadRequest
-      else if negb (rq_fid_ok rq) then BadRequest
-      else Proceed vid fid
+      else match parse_vid vid with
+           | None => BadRequest
+           | Some vol =>
+               match parse_path fid with
+               | None => BadRequest
+               | Some (id, ck) => Proceed vid fid (vol, id, ck)
+               end
+           end
   end.
 
 Definition post (tab : toktab) (cfg : config) (rq : request) : hresult :=
   match parse_url_path (rq_path rq) with
   | None => Panicked
   | Some (vid, fid) =>
-      if negb (rq_vid_ok rq) then BadRequest                 (* NewVolumeId is checked first *)
-      else if negb (check_jwt tab cfg true rq vid fid) then Unauthorized
-      else
-        (* needle.CreateNeedleFromRequest finds the file id in the path on its own *)
-        match upload_fid (rq_path rq) with
-        | None => Panicked
-        | Some ufid =>
-            if negb (rq_upfid_ok rq) then BadRequest         (* n.ParsePath(fid) *)
-            (* repair of finding C34/0: the needle built from the upload's own reading of the
-               path must be the needle that the checked fid denotes, else 400 *)
-            else if negb (rq_same_needle rq) then BadRequest
-            else Proceed vid fid                             (* topology.ReplicatedWrite on that needle *)
-        end
+      match parse_vid vid with
+      | None => BadRequest                                   (* NewVolumeId is checked first *)
+      | Some vol =>
+          if negb (check_jwt tab cfg true rq vid fid) then Unauthorized
+          else
+            (* needle.CreateNeedleFromRequest finds the file id in the path on its own *)
+            match upload_fid (rq_path rq) with
+            | None => Panicked
+            | Some ufid =>
+                match parse_path ufid with
+                | None => BadRequest                         (* n.ParsePath(fid) *)
+                | Some (uid, uck) =>
+                    (* the repair: the needle built from the upload's own reading of the path must
+                       be the needle that the checked fid denotes, else 400 *)
+                    match parse_path fid with
+                    | None => BadRequest
+                    | Some (id, ck) =>
+                        if ((id =? uid) && (ck =? uck))%N
+                        then Proceed vid fid (vol, uid, uck)  (* topology.ReplicatedWrite of reqNeedle *)
+                        else BadRequest
+                    end
+                end
+            end
+      end
   end.
 
 Definition delete (tab : toktab) (cfg : config) (rq : request) : hresult :=
   match parse_url_path (rq_path rq) with
   | None => Panicked
   | Some (vid, fid) =>
-      (* the errors of NewVolumeId and ParsePath are ignored *)
+      (* volumeId, _ := needle.NewVolumeId(vid); n.ParsePath(fid): both errors are ignored, the
+         zero volume id / whatever ParsePath left in n are used *)
+      let vol := match parse_vid vid with Some v => v | None => 0%N end in
+      let st := fst (parse_path_st fid) in
       if negb (check_jwt tab cfg true rq vid fid) then Unauthorized
-      else Proceed vid fid
+      else Proceed vid fid (vol, fst st, snd st)
   end.
 
 Definition handle (tab : toktab) (cfg : config) (rq : request) : hresult :=
@@ -270,25 +376,78 @@ Definition handle (tab : toktab) (cfg : config) (rq : request) : hresult :=
       else delete tab cfg rq
   end.
 
-(* ---- status after the store was consulted (correspondence only) ---- *)
-Inductive target := TExists | TMissing | TNoVolume.
-
-Definition final_status (o : hresult) (m : meth) (tg : target) : N :=
-  match o with
-  | Unauthorized => 401
-  | BadRequest => 400
-  | NoRoute => 200
-  | Panicked => 0
-  | Proceed _ _ =>
-      match m, tg with
-      | (GET | HEAD), TExists => 200
-      | (GET | HEAD), _ => 404
-      | (POST | PUT), TNoVolume => 500
-      | (POST | PUT), _ => 201
-      | DELETE, TExists => 202
-      | DELETE, _ => 404
+(* ---- finding C34/0: what the path names, as numbers; None = the volume id or the file id
+   (without its _suffix) does not parse ---- *)
+Definition request_den (path : string) : option addr :=
+  match parse_url_path path with
+  | Some (vid, fid) =>
+      match parse_vid vid, parse_nic (strip_suffix fid) with
+      | Some vol, Some (id, ck) => Some (vol, id, ck)
+      | _, _ => None
       end
-  end%N.
+  | None => None
+  end.
+Definition is_delete (m : meth) : bool := match m with DELETE => true | _ => false end.
+Definition trig_delete_unparsed (rq : request) : bool :=
+  is_delete (rq_method rq) &&
+  match parse_url_path (rq_path rq) with
+  | Some _ => match request_den (rq_path rq) with None => true | Some _ => false end
+  | None => false
+  end.
+
+(* ---- the store step (correspondence): a world of live needles ---- *)
+Record nrec := { n_vol : N; n_id : N; n_ck : N; n_content : N }.
+  (* n_content: 1 = the data the harness stored at set-up, 2 = the payload of this request *)
+Record world := { w_vols : list N; w_live : list nrec }.
+
+Definition same_slot (vol id : N) (r : nrec) : bool := ((n_vol r =? vol) && (n_id r =? id))%N.
+Fixpoint find_needle (vol id : N) (l : list nrec) : option nrec :=
+  match l with
+  | [] => None
+  | r :: l' => if same_slot vol id r then Some r else find_needle vol id l'
+  end.
+Definition has_vol (w : world) (vol : N) : bool := existsb (N.eqb vol) (w_vols w).
+
+Record effect := { e_status : N; e_live : list nrec; e_disclosed : list (N * N) }.
+
+Definition store_step (o : hresult) (m : meth) (w : world) : effect :=
+  let same st := {| e_status := st; e_live := w_live w; e_disclosed := [] |} in
+  match o with
+  | Unauthorized => same 401%N
+  | BadRequest => same 400%N
+  | NoRoute => same 200%N
+  | Panicked => same 0%N
+  | Proceed _ _ (vol, id, ck) =>
+      let hit := if has_vol w vol then find_needle vol id (w_live w) else None in
+      match m with
+      | GET | HEAD =>
+          match hit with
+          | Some r => if (n_ck r =? ck)%N
+                      then {| e_status := 200; e_live := w_live w; e_disclosed := [(vol, id)] |}
+                      else same 404%N                        (* cookie mismatch *)
+          | None => same 404%N
+          end
+      | POST | PUT =>
+          if negb (has_vol w vol) then same 500%N
+          else match hit with
+               | Some r => if (n_ck r =? ck)%N
+                           then {| e_status := 201; e_disclosed := [];
+                                   e_live := {| n_vol := vol; n_id := id; n_ck := ck; n_content := 2 |}
+                                             :: filter (fun x => negb (same_slot vol id x)) (w_live w) |}
+                           else same 500%N                   (* "mismatching cookie" *)
+               | None => {| e_status := 201; e_disclosed := [];
+                            e_live := {| n_vol := vol; n_id := id; n_ck := ck; n_content := 2 |} :: w_live w |}
+               end
+      | DELETE =>
+          match hit with
+          | Some r => if (n_ck r =? ck)%N
+                      then {| e_status := 202; e_disclosed := [];
+                              e_live := filter (fun x => negb (same_slot vol id x)) (w_live w) |}
+                      else same 400%N                        (* "File Random Cookie does not match." *)
+          | None => same 404%N
+          end
+      end
+  end.
 
 (* ---- the property's reference: who may touch the file ---- *)
 Definition token_good (key : string) (t : token) : bool :=
@@ -299,5 +458,20 @@ Definition spec_allows (tab : toktab) (cfg : config) (rq : request) (presented :
   let key := key_for cfg (is_write_method (rq_method rq)) in
   sempty key ||
   existsb (fun s => match lookup s tab with Some t => token_good key t | None => false end) presented.
+
+(* a token whose claim denotes (by the real parser) the volume and cookie of a needle and its key, or a
+   smaller key when the request carried a _suffix *)
+Definition token_opens (key : string) (suffix : bool) (r : nrec) (t : token) : bool :=
+  decode_ok key t &&
+  match t_den t with
+  | Some (vol, k, ck) => ((vol =? n_vol r) && (ck =? n_ck r) && ((k =? n_id r) || (suffix && (k <=? n_id r))))%N
+  | None => false
+  end.
+Definition needle_allowed (tab : toktab) (cfg : config) (rq : request) (presented : list string) (r : nrec) : bool :=
+  let key := key_for cfg (is_write_method (rq_method rq)) in
+  sempty key ||
+  existsb (fun s => match lookup s tab with
+                    | Some t => token_opens key (Nat.ltb 0 (count_char c_us (rq_path rq))) r t
+                    | None => false end) presented.
 
 Definition is_upload (m : meth) : bool := match m with POST | PUT => true | _ => false end.
